@@ -1,5 +1,7 @@
 //! C03 – printed log lines are never erased, duplicated or reordered: log-heavy histories over a
-//! single bar and over a MultiProgress whose refresh limiter is exhausted most of the time.
+//! MultiProgress whose refresh limiter is exhausted most of the time, every drop order, both
+//! alignments; correspondence with model/Sys.v + the screen oracle (sysoracle.rs).
+use verif_harness::spy::TOp;
 use verif_harness::sysoracle::*;
 use verif_harness::sysrun::*;
 use verif_harness::*;
@@ -8,7 +10,7 @@ fn main() {
     let a = args();
     let mut s = Session::new(&a, "C03", COQ_HEADER, COQ_CASE_TY, COQ_CHECKER);
     s.shard_size = 120;
-    s.rule = "log-heavy histories (println of the MultiProgress and of members, suspend, clear, interleaved with updates, finishes, drops in every order, removals) on targets with refresh rates 1/20/255 Hz and bursts of zero-gap updates so that most ordinary draws are skipped, plus unlimited targets; also single standalone bars; non-trivial = at least two log emissions and one skipped draw or one drop; distinct = distinct case text".into();
+    s.rule = "corpus (old witnesses D6, D7, D8, D21, suspend/bottom 96a75c4, bottom println 951c29f, always-refusing limiter, every drop order of three bars) + log-heavy random histories (println of the MultiProgress and of members, suspend, clear, interleaved with updates, finishes, drops in every order, removals) on targets with refresh rates 1/20/255 Hz and bursts of zero-gap updates so that most ordinary draws are skipped, plus unlimited targets; top alignment and (one third) bottom alignment; non-trivial = at least two log emissions and one skipped draw or one drop; distinct = distinct case text".into();
     let mut r = Rng::new(a.seed);
     let n = if a.thorough { 6000 } else if a.extended { 3000 } else { 500 };
     let mut cases = corpus();
@@ -34,79 +36,232 @@ fn main() {
         let drops = c.ops.iter().filter(|(_, o)| matches!(o, Op::Drop(_))).count();
         logs >= 2 && (skipped >= 1 || drops >= 1)
     });
+    reclassify_bottom(&mut s, &cases);
     s.finish();
+}
+
+/// see c02.rs: the lump class of sysoracle::classify() split into narrow, decidable classes
+fn reclassify_bottom(s: &mut Session, cases: &[Case]) {
+    const LUMP: &str = "bottom-alignment-shrunken-frame";
+    let mut moved: Vec<String> = vec![];
+    for f in s.failures.iter_mut().filter(|f| f.class == LUMP) {
+        let narrow = if f.detail.contains("the lines printed so far are") || f.detail.contains("the first rows of the screen are") {
+            "bottom-println-text-below-padding"
+        } else {
+            let (mut empty_frame, mut kept) = (false, false);
+            if let Some(c) = cases.iter().find(|c| describe(c) == f.case) {
+                let obs = run_case(c);
+                let mut bottom = false;
+                let mut padded_frame_seen = false;
+                let mut dropped_member = false;
+                let mut member = vec![false; c.bars.len()];
+                for ((_, op), o) in c.ops.iter().zip(obs.iter()) {
+                    match op {
+                        Op::SetAlign(b) => bottom = *b,
+                        Op::Insert(_, b) => member[*b] = true,
+                        Op::Remove(b) => member[*b] = false,
+                        _ => {}
+                    }
+                    let painted = o.emitted.iter().any(|x| *x == TOp::Flush);
+                    let cleared = o.emitted.iter().any(|x| *x == TOp::Clear);
+                    let wrote = o.emitted.iter().any(|x| matches!(x, TOp::Str(_)));
+                    let padding = o.emitted.iter().enumerate().any(|(i, x)| {
+                        matches!(x, TOp::Line(l) if l.is_empty()) && (i == 0 || !matches!(o.emitted[i - 1], TOp::Str(_)))
+                    });
+                    if painted {
+                        // the last painted frame has padding rows (shift > 0)
+                        padded_frame_seen = bottom && padding;
+                        if padded_frame_seen && dropped_member {
+                            kept = true; // a zombie may be reaped by this padded frame
+                        }
+                        if padded_frame_seen && cleared && !wrote {
+                            empty_frame = true;
+                        }
+                    }
+                    if let Op::Drop(b) = op {
+                        if member[*b] {
+                            dropped_member = true;
+                            if padded_frame_seen {
+                                kept = true; // reaped at the head right after a padded frame
+                            }
+                        }
+                    }
+                }
+            }
+            if kept {
+                "bottom-alignment-kept-rows-misplaced"
+            } else if empty_frame {
+                "bottom-alignment-empty-frame-drift"
+            } else {
+                "bottom-alignment-other"
+            }
+        };
+        f.class = narrow.to_string();
+        moved.push(narrow.to_string());
+    }
+    if !moved.is_empty() {
+        s.dist.remove(&format!("oracle_failure:{LUMP}"));
+        for m in moved {
+            s.count(&format!("oracle_failure:{m}"));
+        }
+    }
 }
 
 fn corpus() -> Vec<Case> {
     let b = |tmpl: Vec<TPart>, fin| BarInit { len: Some(10), fin, tmpl, target: TInit::Hidden };
     let t = |id: &str| vec![TPart::Lit(id.into()), TPart::Pos];
-    let mk = |hz, bars: Vec<BarInit>, ops: Vec<(u64, Op)>| Case { w: 20, h: 50, fail_at: vec![], fail_from: None, mp: TInit::Term(hz), bars, ops };
-    let ml = |id: &str| vec![TPart::Lit(id.into()), TPart::Msg, TPart::Lit(" ".into()), TPart::Pos, TPart::Lit("/".into()), TPart::Len];
-    vec![
-        // bottom alignment, shrunken frame, then println of a member: the text is painted below the
-        // padding rows and counted in last_line_count (reported by the reviewer, InMemoryTerm 12x40)
-        Case {
-            w: 40,
-            h: 12,
-            fail_at: vec![],
-            fail_from: None,
-            mp: TInit::Term(None),
-            bars: vec![b(ml("a"), Fin::AndClear), b(ml("b"), Fin::AndClear), b(ml("c"), Fin::AndClear)],
-            ops: vec![
-                (0, Op::SetAlign(true)),
+    let mk = |w: u16, hz, bars: Vec<BarInit>, ops: Vec<(u64, Op)>| Case { w, h: 50, fail_at: vec![], fail_from: None, mp: TInit::Term(hz), bars, ops };
+    let ms = 1_000_000u64;
+    let abc = || vec![b(t("A"), Fin::AndLeave), b(t("B"), Fin::AndLeave), b(t("C"), Fin::AndLeave)];
+    let mut v = vec![
+        // D6: refused draws while the head member is a zombie, then println (fixed by 7be6e32)
+        mk(20, Some(1), abc(), {
+            let mut v = vec![
+                (0, Op::MPrintln("log1".into())),
+                (0, Op::MPrintln("log2".into())),
+                (0, Op::MPrintln("log3".into())),
                 (0, Op::Insert(Loc::End, 0)),
                 (0, Op::Insert(Loc::End, 1)),
                 (0, Op::Insert(Loc::End, 2)),
-                (1_000_000, Op::Tick(0)),
-                (2_000_000, Op::Tick(1)),
-                (3_000_000, Op::Tick(2)),
-                (4_000_000, Op::Remove(0)),
-                (5_000_000, Op::Finish(1, Fin::AndClear)),
-                (6_000_000, Op::Println(2, "x".into())),
-                (7_000_000, Op::Tick(2)),
+                (1, Op::Tick(0)),
+                (2, Op::Finish(1, Fin::AndLeave)),
+                (3, Op::Drop(1)),
+                (4, Op::Finish(0, Fin::AndLeave)),
+                (5, Op::Drop(0)),
+            ];
+            for i in 0..40 {
+                v.push((6 + i, Op::Tick(2)));
+            }
+            v.push((100, Op::MPrintln("log4".into())));
+            v.push((2_000_000_000, Op::Tick(2)));
+            v
+        }),
+        // D7: println while the head member is a zombie (a non-first bar finished and dropped first)
+        mk(
+            20,
+            None,
+            abc(),
+            vec![
+                (0, Op::MPrintln("log1".into())),
+                (0, Op::Insert(Loc::End, 0)),
+                (0, Op::Insert(Loc::End, 1)),
+                (ms, Op::Tick(0)),
+                (2 * ms, Op::Tick(1)),
+                (3 * ms, Op::Finish(1, Fin::AndLeave)),
+                (4 * ms, Op::Drop(1)),
+                (5 * ms, Op::Finish(0, Fin::AndLeave)),
+                (6 * ms, Op::MPrintln("log2".into())),
+                (7 * ms, Op::Drop(0)),
+                (8 * ms, Op::MPrintln("log3".into())),
+                (9 * ms, Op::Insert(Loc::End, 2)),
+                (10 * ms, Op::Tick(2)),
             ],
-        },
-        // D6: refused draws while the head member is a zombie, then println
-        mk(
-            Some(1),
-            vec![b(t("A"), Fin::AndLeave), b(t("B"), Fin::AndLeave), b(t("C"), Fin::AndLeave)],
-            {
-                let mut v = vec![
-                    (0, Op::MPrintln("log1".into())),
-                    (0, Op::MPrintln("log2".into())),
-                    (0, Op::MPrintln("log3".into())),
-                    (0, Op::Insert(Loc::End, 0)),
-                    (0, Op::Insert(Loc::End, 1)),
-                    (0, Op::Insert(Loc::End, 2)),
-                    (1, Op::Tick(0)),
-                    (2, Op::Finish(1, Fin::AndLeave)),
-                    (3, Op::Drop(1)),
-                    (4, Op::Finish(0, Fin::AndLeave)),
-                    (5, Op::Drop(0)),
-                ];
-                for i in 0..40 {
-                    v.push((6 + i, Op::Tick(2)));
-                }
-                v.push((100, Op::MPrintln("log4".into())));
-                v.push((2_000_000_000, Op::Tick(2)));
-                v
-            },
         ),
-        // D8: member println below kept rows, then multi println
+        // D8: member println below kept rows, then multi println (fixed by bae6780)
         mk(
+            20,
             None,
             vec![b(t("A"), Fin::AndLeave), b(t("B"), Fin::AndLeave)],
             vec![
                 (0, Op::Insert(Loc::End, 0)),
                 (0, Op::Insert(Loc::End, 1)),
-                (1_000_000, Op::Tick(0)),
-                (2_000_000, Op::Tick(1)),
-                (3_000_000, Op::Finish(0, Fin::AndLeave)),
-                (4_000_000, Op::Drop(0)),
-                (5_000_000, Op::Println(1, "from-bar".into())),
-                (6_000_000, Op::MPrintln("from-multi".into())),
-                (7_000_000, Op::Tick(1)),
+                (ms, Op::Tick(0)),
+                (2 * ms, Op::Tick(1)),
+                (3 * ms, Op::Finish(0, Fin::AndLeave)),
+                (4 * ms, Op::Drop(0)),
+                (5 * ms, Op::Println(1, "from-bar".into())),
+                (6 * ms, Op::MPrintln("from-multi".into())),
+                (7 * ms, Op::Tick(1)),
             ],
         ),
-    ]
+        // D21: remove(first) then drop of an already finished new head, then println (dbf4cde)
+        mk(
+            20,
+            None,
+            abc(),
+            vec![
+                (0, Op::MPrintln("log1".into())),
+                (0, Op::Insert(Loc::End, 0)),
+                (0, Op::Insert(Loc::End, 1)),
+                (0, Op::Insert(Loc::End, 2)),
+                (ms, Op::Tick(0)),
+                (2 * ms, Op::Tick(1)),
+                (3 * ms, Op::Tick(2)),
+                (4 * ms, Op::Finish(1, Fin::AndLeave)),
+                (5 * ms, Op::Remove(0)),
+                (6 * ms, Op::Drop(1)),
+                (7 * ms, Op::MPrintln("log2".into())),
+                (8 * ms, Op::Tick(2)),
+            ],
+        ),
+        // always-refusing limiter: all calls at the same instant after the burst is spent
+        mk(12, Some(1), abc(), {
+            let mut v = vec![(0, Op::Insert(Loc::End, 0)), (0, Op::Insert(Loc::End, 1)), (0, Op::Insert(Loc::End, 2))];
+            for i in 0..30u64 {
+                v.push((0, Op::Tick((i % 3) as usize)));
+            }
+            v.push((0, Op::MPrintln("p1".into())));
+            for i in 0..10u64 {
+                v.push((0, Op::Inc((i % 3) as usize, 1)));
+            }
+            v.push((0, Op::Println(1, "p2\np3".into())));
+            v.push((0, Op::Drop(1)));
+            v.push((0, Op::MSuspend(vec!["s1".into()])));
+            v.push((0, Op::Drop(0)));
+            v.push((0, Op::MPrintln("p4".into())));
+            v.push((0, Op::Drop(2)));
+            v.push((0, Op::MPrintln("p5".into())));
+            v
+        }),
+        // suspend under bottom alignment (96a75c4) and println on a shrunken bottom frame (951c29f)
+        mk(
+            40,
+            None,
+            vec![b(t("a"), Fin::AndClear), b(t("b"), Fin::AndClear), b(t("c"), Fin::AndClear)],
+            vec![
+                (0, Op::SetAlign(true)),
+                (0, Op::Insert(Loc::End, 0)),
+                (0, Op::Insert(Loc::End, 1)),
+                (0, Op::Insert(Loc::End, 2)),
+                (ms, Op::Tick(0)),
+                (2 * ms, Op::Tick(1)),
+                (3 * ms, Op::Tick(2)),
+                (4 * ms, Op::MSuspend(vec!["closure".into()])),
+                (5 * ms, Op::Remove(0)),
+                (6 * ms, Op::Finish(1, Fin::AndClear)),
+                (7 * ms, Op::Println(2, "x".into())),
+                (8 * ms, Op::Tick(2)),
+                (9 * ms, Op::MPrintln("y\nz".into())),
+                (10 * ms, Op::Tick(2)),
+                (11 * ms, Op::MClear),
+                (12 * ms, Op::MPrintln("w".into())),
+            ],
+        ),
+    ];
+    // every order of finishing + dropping three bars, a println after every drop
+    let perms: [[usize; 3]; 6] = [[0, 1, 2], [0, 2, 1], [1, 0, 2], [1, 2, 0], [2, 0, 1], [2, 1, 0]];
+    for (k, p) in perms.iter().enumerate() {
+        let mut ops = vec![
+            (0, Op::MPrintln("start".into())),
+            (0, Op::Insert(Loc::End, 0)),
+            (0, Op::Insert(Loc::End, 1)),
+            (0, Op::Insert(Loc::End, 2)),
+            (ms, Op::Tick(0)),
+            (2 * ms, Op::Tick(1)),
+            (3 * ms, Op::Tick(2)),
+        ];
+        let mut tt = 4 * ms;
+        for (j, bb) in p.iter().enumerate() {
+            if (k + j) % 2 == 0 {
+                ops.push((tt, Op::Finish(*bb, if j == 1 { Fin::AndClear } else { Fin::AndLeave })));
+                tt += ms;
+            }
+            ops.push((tt, Op::Drop(*bb)));
+            tt += ms;
+            ops.push((tt, if j % 2 == 0 { Op::MPrintln(format!("after{j}")) } else { Op::Println(p[2], format!("bar{j}")) }));
+            tt += ms;
+        }
+        v.push(mk(20, if k % 2 == 0 { None } else { Some(20) }, abc(), ops));
+    }
+    v
 }
